@@ -21,6 +21,7 @@
 (*  eqr    {chs, items:[{p, lo, hi, res:[[a,b]]}]}   sa_equal_range(lo, hi, |p|, ch) *)
 (*  built  {ok, n, dtext}                  dictionary constructed (its text) / refused *)
 (*  text_proj {text:digest}  sa_proj {n, len, perm, violations, distinct}  large case *)
+(*  dict_proj {n, len, items:[{plen, occ, npos, all_occ, distinct, viol, m, da}]}  large dictionary case *)
 (*  panic  {in, msg, head}                 no action: rejected                     *)
 EXTENDS SuffixArray, TraceIO, Known_SuffixArray
 
@@ -44,6 +45,8 @@ Step(e) ==
     \/ e.op = "built"    /\ DictBuilt(e.ok, IF e.ok THEN e.n ELSE 0, IF e.ok THEN e.dtext ELSE <<>>)
     \/ e.op = "text_proj" /\ SetTextProjected
     \/ e.op = "sa_proj"  /\ BuiltProjected(e.n, e.len, e.perm, e.violations)
+    \/ e.op = "dict_proj" /\ DictProjected(e.n, e.len, e.items)
+    \/ e.op = "built_proj" /\ ~e.ok /\ BuildRefused
 
 TraceNext ==
     /\ l <= Len(Rec)
